@@ -39,6 +39,9 @@ inductive Buf
   | xyarea | npoints | idxcells | idxcellsArea | xypoints | altitude | slopeval
   | points | polygon | xlim | ylim | inside
   | idxinlets | buffer1 | buffer2 | buffer | mask | idxboundary | idxok | rivdata | flowpaths
+  /-- buffers of the definitions GENERATED from the C text (`Generated/CKernels.lean`): the `k`-th parameter of the
+  function (a pointer), the `k`-th local array of the function — positions, not names -/
+  | arg (k : Nat) | loc (k : Nat)
   deriving DecidableEq, Repr
 
 inductive Fault
